@@ -4,7 +4,7 @@
    token stream from the real implementation. *)
 From Coq Require Import String Ascii.
 From Radius Require Import Base.Bytes Base.Guard Base.Res Gen.Consts
-  Model.Attrs Model.Packet Spec.C09 Spec.C01 Spec.C03.
+  Model.Attrs Model.Packet Model.Passwords Spec.C09 Spec.C01 Spec.C03 Spec.C04 Spec.C11.
 From Radius Require Import Crypto.MD5.
 Open Scope list_scope.
 Open Scope nat_scope.
@@ -147,12 +147,29 @@ Definition dispatch_c01 (name : bytes) (bs : list bytes) (zs : list Z) : option 
   else if name_is name "m.response" then Some (t_packet (response (arg_packet bs (skipn 1 zs)) (z1 zs)))
   else None.
 
+(* ---- C04 / C11 ---- *)
+Definition b4 (bs : list bytes) : bytes := nth 3 bs [].
+Definition t_bytes (b : bytes) : list tok := [TB b].
+Definition t_pair (p : bytes * bytes) : list tok := [TB (fst p); TB (snd p)].
+
+Definition dispatch_pw (name : bytes) (bs : list bytes) (zs : list Z) : option (list tok) :=
+  if name_is name "m.nup" then Some (t_res (new_user_password md5 (b1 bs) (b2 bs) (b3 bs)) t_bytes)
+  else if name_is name "s.nup" then Some (t_res_s (spec_new_user_password md5 (b1 bs) (b2 bs) (b3 bs)) t_bytes)
+  else if name_is name "m.up" then Some (t_res (user_password md5 (b1 bs) (b2 bs) (b3 bs)) t_bytes)
+  else if name_is name "s.up" then Some (t_res_s (spec_user_password md5 (b1 bs) (b2 bs) (b3 bs)) t_bytes)
+  else if name_is name "m.ntp" then Some (t_res (new_tunnel_password md5 (b1 bs) (b2 bs) (b3 bs) (b4 bs)) t_bytes)
+  else if name_is name "s.ntp" then Some (t_res_s (spec_new_tunnel_password md5 (b1 bs) (b2 bs) (b3 bs) (b4 bs)) t_bytes)
+  else if name_is name "m.tp" then Some (t_res (tunnel_password md5 (b1 bs) (b2 bs) (b3 bs)) t_pair)
+  else if name_is name "s.tp" then Some (t_res_s (spec_tunnel_password md5 (b1 bs) (b2 bs) (b3 bs)) t_pair)
+  else None.
+
 Definition dispatch (name : bytes) (bs : list bytes) (zs : list Z) : list tok :=
   if name_is name "m.attrs_run" then run_attrs false bs zs
   else if name_is name "s.attrs_run" then run_attrs true bs zs
   else if name_is name "md5" then match bs with b :: _ => [TB (md5 b)] | [] => [] end
   else match dispatch_c01 name bs zs with Some t => t | None =>
-  [TI (-97)] end.
+  match dispatch_pw name bs zs with Some t => t | None =>
+  [TI (-97)] end end.
 
 Require Extraction.
 Require Import ExtrOcamlBasic.
